@@ -329,12 +329,15 @@ def searchpath_rule(c, chk, ex):
                 for i, e in enumerate(p.events):
                     if e.kind == 'call' and e.ins is call:
                         a = e.args[0]
-                        if not (is_section_value(a) or section_origin(call.func, call)):
+                        na = sym.norm(a)
+                        # (also a context under construction that was already given its parent's search path)
+                        lent = [k for k, e2 in enumerate(p.events[:i]) if e2.kind == 'store' and e2.field == 'path' and e2.addr[0] == 'fld' and sym.norm(e2.addr[1]) == na
+                                and e2.val[0] == 'ld' and e2.val[1][0] == 'fld' and e2.val[1][3] == 'path']
+                        if not (is_section_value(a) or section_origin(call.func, call) or lent):
                             continue
                         judged = True
-                        na = sym.norm(a)
                         cleared = any(e2.kind == 'store' and e2.field == 'path' and e2.val == sym.C0 and e2.addr[0] == 'fld'
-                                      and sym.norm(e2.addr[1]) == na for e2 in p.events[:i])
+                                      and sym.norm(e2.addr[1]) == na for e2 in p.events[(lent[-1] + 1 if lent else 0):i])
                         if not cleared:
                             okall = False
                             wit = p
